@@ -19,6 +19,49 @@ type c05inst struct {
 	parser *parsers.ExpressionParser
 	calc   *calculator.ExpressionCalculator
 	tmpl   *mustache.MustacheTemplate
+	fnops  []Ev // changes made to the calculator's default functions so far (a fresh calculator gets the same ones)
+}
+
+type c05fn struct {
+	name string
+	k    int
+}
+
+func (f *c05fn) Name() string { return f.name }
+func (f *c05fn) Calculate(params []*variants.Variant, ops variants.IVariantOperations) (*variants.Variant, error) {
+	return variants.VariantFromInteger(f.k + len(params)), nil
+}
+
+func applyFnOp(c *calculator.ExpressionCalculator, op Ev) {
+	guarded(func() {
+		switch toStr(op["do"]) {
+		case "remove":
+			c.DefaultFunctions().RemoveByName(toStr(op["name"]))
+		case "add":
+			c.DefaultFunctions().Add(&c05fn{toStr(op["name"]), toInt(op["k"])})
+		case "clearvars":
+			c.DefaultVariables().Clear()
+		}
+	})
+}
+
+// obsParserTokens: the same through ParseTokens with the lexical tokens of the text
+func obsParserTokens(p *parsers.ExpressionParser, text string) []any {
+	var err error
+	toks := lexTokens(text)
+	oc, _ := guarded(func() { err = p.ParseTokens(toks) })
+	if oc != "ok" {
+		return []any{"panic"}
+	}
+	if err != nil {
+		return []any{"error", errCode(err)}
+	}
+	rp := rpnJSON(p.ResultTokens())
+	flat := []string{}
+	for _, x := range rp {
+		flat = append(flat, x[0]+":"+x[1])
+	}
+	return []any{"ok", strings.Join(flat, " "), strings.Join(p.VariableNames(), ",")}
 }
 
 var c05cur *c05inst
@@ -103,10 +146,50 @@ func init() {
 			case "parser":
 				e["obs"] = obsParser(c05cur.parser, text)
 				e["fresh"] = obsParser(parsers.NewExpressionParser(), text)
+			case "parsertok":
+				e["obs"] = obsParserTokens(c05cur.parser, text)
+				e["fresh"] = obsParserTokens(parsers.NewExpressionParser(), text)
+			case "parserexpr": // the text the parser reports for what it holds, parsed again by the same parser
+				text = c05cur.parser.Expression()
+				e["input"] = cps(text)
+				e["obs"] = obsParser(c05cur.parser, text)
+				e["fresh"] = obsParser(parsers.NewExpressionParser(), text)
+			case "fnop":
+				op := Ev{"do": in["do"], "name": in["name"], "k": in["k"]}
+				e["do"], e["name"], e["k"] = in["do"], in["name"], in["k"]
+				c05cur.fnops = append(c05cur.fnops, op)
+				applyFnOp(c05cur.calc, op)
+				e["obs"], e["fresh"] = []any{"done"}, []any{"done"}
+			case "calceval": // evaluate what the calculator holds once more, with its default functions and variables
+				ev := func(c *calculator.ExpressionCalculator) []any {
+					var res *variants.Variant
+					var err error
+					if oc, _ := guarded(func() { res, err = c.Evaluate() }); oc != "ok" {
+						return []any{"panic"}
+					}
+					if err != nil {
+						return []any{"error", errCode(err)}
+					}
+					if res == nil {
+						return []any{"nil"}
+					}
+					return []any{"ok", int(res.Type()), res.String()}
+				}
+				fc := calculator.NewExpressionCalculator()
+				for _, op := range c05cur.fnops {
+					applyFnOp(fc, op)
+				}
+				guarded(func() { fc.SetExpression(text) })
+				guarded(func() { c05cur.calc.SetAutoVariables(true); c05cur.calc.SetExpression(text) })
+				e["obs"], e["fresh"] = ev(c05cur.calc), ev(fc)
+				c05cur.calc.SetAutoVariables(false)
 			case "calculator":
 				e["obs"] = obsCalc(c05cur.calc, text)
 				fc := calculator.NewExpressionCalculator()
 				fc.SetAutoVariables(false)
+				for _, op := range c05cur.fnops {
+					applyFnOp(fc, op)
+				}
 				e["fresh"] = obsCalc(fc, text)
 			case "template":
 				e["obs"] = obsTmpl(c05cur.tmpl, text)
@@ -115,13 +198,13 @@ func init() {
 			return e
 		}
 	}
-	for _, w := range []string{"parser", "calculator", "template"} {
+	for _, w := range []string{"parser", "calculator", "template", "parsertok", "parserexpr", "fnop", "calceval"} {
 		c05exec[w] = mk(w)
 	}
 	c05extra = append(c05extra, genC05b)
 }
 
-var c05exprPool = []string{"a + b", "a <= b", "a <> b", "a << 1", "a >= b", "a >> 1", "a != b", "1 +", "2 + * 3", "(1 + 2", "a[1", "f(a,",
+var c05exprPool = []string{"'abc' = 'abc'", "'abc' = 'ABC'", "'x' + 'y'", "'x' + 'Y'", "s = 'abc'", "S = 'ABC'", "a + b", "a <= b", "a <> b", "a << 1", "a >= b", "a >> 1", "a != b", "1 +", "2 + * 3", "(1 + 2", "a[1", "f(a,",
 	"x y 7 + 1", "a * b + 2", "] ] ) , 5", "'abc' + s", "NOT a IS NULL", "a NOT", "", "$", "a IS", "Min(a, b)", "a /* c", "'open"}
 var c05tmplPool = []string{"Hello, {{NAME}}!", "Hello, {{NAME", "{{#a}}x{{/a}}", "{{#a}}x", "{{/a}}", "{{{NAME}}}", "plain text", "{{", "}}", "",
 	"{{#if e}}no{{/if}}{{^e}}yes{{/e}}", "{{a}}{{ NAME }} {", "{{#a}}{{#e}}{{/a}}", "{{! c }}t"}
@@ -164,6 +247,45 @@ func genC05b(g *Gen) {
 				seg = append(seg, Ev{"op": "reuse", "what": what, "input": cps(in), "first": k == 0})
 			}
 			g.Run("reused "+what+": random histories", seg)
+		}
+	}
+	// long-lived instances: hundreds of rejected inputs, then accepted ones (the N-th use behaves like the first)
+	bad := []string{"(((1 +", "2 * (3 + ", "f(1, (2", "a[", "((((((((", "NOT", "Min(((a)", "{{#a}}{{#a}}x", "{{#a}}", "{{/a}}", "{{a"}
+	good := map[string][]string{"parser": {"(1 + 2) * Max(3, 4)", "a[1] + (b)"}, "calculator": {"(1 + 2) * Max(3, 4)", "((a)) + b"}, "template": {"{{#a}}x{{#a}}y{{/a}}{{/a}}", "Hello, {{NAME}}!"}}
+	for _, what := range []string{"parser", "calculator", "template"} {
+		for rep := 0; rep < g.Pick(1, 4); rep++ {
+			var seg []Ev
+			n := g.Pick(320, 1400)
+			for i := 0; i < n; i++ {
+				seg = append(seg, Ev{"op": "reuse", "what": what, "input": cps(bad[r.Intn(len(bad))]), "first": i == 0})
+				if i%61 == 60 || i == n-1 {
+					for _, x := range good[what] {
+						seg = append(seg, Ev{"op": "reuse", "what": what, "input": cps(x), "first": false})
+					}
+				}
+			}
+			g.Run("reused "+what+": hundreds of rejected inputs in between", seg)
+		}
+	}
+	// one parser used through both entries and given back the text it composed
+	for _, x1 := range c05exprPool {
+		for _, x2 := range []string{"x = 'abc'", "x = 'a b'", "\"a b\" + 1", "a + b", "'1' + 2", "(a", "x = abc"} {
+			g.Run("one parser through both entries", []Ev{{"op": "reuse", "what": "parsertok", "input": cps(x2), "first": true}, {"op": "reuse", "what": "parserexpr", "input": []int{}, "first": false},
+				{"op": "reuse", "what": "parser", "input": cps(x1), "first": false}, {"op": "reuse", "what": "parserexpr", "input": []int{}, "first": false}, {"op": "reuse", "what": "parsertok", "input": cps(x1), "first": false}})
+		}
+	}
+	// the calculator's default functions changed between evaluations
+	for _, fn := range []string{"Min", "max", "SUM", "Abs", "If", "Mine"} {
+		for _, ex := range []string{fn + "(7, 2)", "1 + " + fn + "(1, 2, 3)", fn + "(" + fn + "(1, 2), 3)"} {
+			for _, ops := range [][]Ev{{{"do": "remove", "name": fn}}, {{"do": "remove", "name": fn}, {"do": "add", "name": fn, "k": 700}}, {{"do": "add", "name": fn, "k": 50}},
+				{{"do": "add", "name": strings.ToUpper(fn), "k": 70}, {"do": "remove", "name": strings.ToLower(fn)}}, {{"do": "add", "name": fn, "k": 1}, {"do": "remove", "name": fn}, {"do": "add", "name": fn, "k": 2}}} {
+				seg := []Ev{{"op": "reuse", "what": "calceval", "input": cps(ex), "first": true}, {"op": "reuse", "what": "calculator", "input": cps(ex), "first": false}}
+				for _, o := range ops {
+					seg = append(seg, Ev{"op": "reuse", "what": "fnop", "input": []int{}, "first": false, "do": o["do"], "name": o["name"], "k": orZero(o["k"])})
+					seg = append(seg, Ev{"op": "reuse", "what": "calceval", "input": cps(ex), "first": false}, Ev{"op": "reuse", "what": "calculator", "input": cps(ex), "first": false})
+				}
+				g.Run("default functions changed between evaluations", seg)
+			}
 		}
 	}
 	_ = fmt.Sprint
